@@ -493,14 +493,16 @@ theorem call_sim_setters (env : Env) (rfM : Form → Matrix → Res → List Gly
 
 theorem td_matrix (M : Matrix) (tx ty : Rat) :
     mult_matrix (1, 0, 0, 1, tx, ty) M =
-      (M.1, M.2.1, M.2.2.1, M.2.2.2.1, td_e_new tx M.1 ty M.2.2.1 M.2.2.2.2.1, td_f_new tx M.2.1 ty M.2.2.2.1 M.2.2.2.2.2) := by
+      (M.1, M.2.1, M.2.2.1, M.2.2.2.1, td_e_new tx ty M.1 M.2.1 M.2.2.1 M.2.2.2.1 M.2.2.2.2.1 M.2.2.2.2.2,
+       td_f_new tx ty M.1 M.2.1 M.2.2.1 M.2.2.2.1 M.2.2.2.2.1 M.2.2.2.2.2) := by
   obtain ⟨a, b, c, d, e, f⟩ := M
   simp only [mult_matrix, td_e_new, td_f_new, Prod.mk.injEq]
   refine ⟨?_, ?_, ?_, ?_, ?_, ?_⟩ <;> grind
 
 theorem tD_matrix (M : Matrix) (tx ty : Rat) :
     mult_matrix (1, 0, 0, 1, tx, ty) M =
-      (M.1, M.2.1, M.2.2.1, M.2.2.2.1, tD_e_new tx M.1 ty M.2.2.1 M.2.2.2.2.1, tD_f_new tx M.2.1 ty M.2.2.2.1 M.2.2.2.2.2) := by
+      (M.1, M.2.1, M.2.2.1, M.2.2.2.1, tD_e_new tx ty M.1 M.2.1 M.2.2.1 M.2.2.2.1 M.2.2.2.2.1 M.2.2.2.2.2,
+       tD_f_new tx ty M.1 M.2.1 M.2.2.1 M.2.2.2.1 M.2.2.2.2.1 M.2.2.2.2.2) := by
   obtain ⟨a, b, c, d, e, f⟩ := M
   simp only [mult_matrix, tD_e_new, tD_f_new, Prod.mk.injEq]
   refine ⟨?_, ?_, ?_, ?_, ?_, ?_⟩ <;> grind
